@@ -667,13 +667,16 @@ impl ast::Capture {
             // not resolved by the checker, which does not visit attribute shorthands
             return Err(ExecutionError::UndefinedCapture(format!("{}", self)));
         }
-        Ok(Value::from_nodes(
-            exec.graph,
-            exec.mat
-                .nodes_for_capture_index(self.file_capture_index as u32),
-            self.quantifier,
-        )
-        .into())
+        let mut nodes = exec
+            .mat
+            .nodes_for_capture_index(self.file_capture_index as u32)
+            .peekable();
+        if self.quantifier == tree_sitter::CaptureQuantifier::One && nodes.peek().is_none() {
+            // the query reports the capture as occurring once, but this match has no node for it:
+            // tree-sitter keeps at most three captures per pattern step and drops the others
+            return Err(ExecutionError::UndefinedCapture(format!("{}", self)));
+        }
+        Ok(Value::from_nodes(exec.graph, nodes, self.quantifier).into())
     }
 }
 
